@@ -155,6 +155,16 @@ def _c12_case(args):
             out["status"] = "D3" if H.is_float_cancellation_rejection(ex) else "raises"; return out
         exp = expected_scaling(a, sec, n, key)
         sa, sb = H.snapshot(a.system), H.snapshot(b.system)
+        # the same scaling applied to a live, already computed system (the driver is edited, not rebuilt)
+        attr = {"aci": "average_carbon_intensity", "bei": "bandwidth_energy_intensity", "cff": "carbon_footprint_fabrication", "fraction": "fraction_of_usage_time"}.get(key, key)
+        live_snap = None
+        if not H.has_shared_job(s1):          # live edits of shared-job systems are known finding D1 territory
+            c = H.build(s1)
+            try:
+                setattr(c[n], attr, H.Q(s2[sec][n][key]))
+                live_snap = H.snapshot(c.system)
+            except Exception as ex:
+                if not H.is_float_cancellation_rejection(ex): out["diff"].append(f"live-edit-raises:{type(ex).__name__}")
         for k_, va in sa.items():
             if not any(x in k_[1] for x in ("footprint", "energy", "hourly_data_transferred")): continue
             if k_ == ("system", "total_footprint"): continue
@@ -162,6 +172,7 @@ def _c12_case(args):
             if e is None: continue
             want = scale_view(va, kf ** e)
             if not H.view_equal(want, sb[k_], rel=1e-9): out["diff"].append(f"{k_[0]}.{k_[1]}(expected x{kf}^{e})")
+            if live_snap is not None and not H.view_equal(want, live_snap[k_], rel=1e-9): out["diff"].append(f"{k_[0]}.{k_[1]}(after a live edit: expected x{kf}^{e})")
         if out["diff"]: out["status"] = "differs"
     except Exception:
         out["status"] = "harness-error"; out["error"] = traceback.format_exc()[-600:]
@@ -205,7 +216,7 @@ def run_c12(tier, seed, procs=16):
                     items.append((tname, spec, sec, n, key, default, expo, kf))
     res = H.run_parallel(_c12_case, items, procs)
     res += H.run_parallel(_traffic_case, [(t, s, 3) for t, s in T.items()], procs)
-    return _report("C12", res, lambda r: f"{r['topology']}|{r['slot']}", "one case = (topology, one cost driver multiplied by k); both systems built from scratch; the footprints the driver drives must scale by k (or 1/k), every other footprint must be unchanged; plus all traffic x k on serverless servers",
+    return _report("C12", res, lambda r: f"{r['topology']}|{r['slot']}", "one case = (topology, one cost driver multiplied by k); both systems built from scratch, and the driver also edited on a live computed system; the footprints the driver drives must scale by k (or 1/k), every other footprint must be unchanged; plus all traffic x k on serverless servers",
                    f"{len(T)} topologies x 11 drivers x every object of the class, k in {{3}} (thorough: also 0.5)")
 
 
@@ -217,12 +228,14 @@ def _c18_case(args):
         try:
             b = H.build(spec)
             if idx is not None:
-                eds = H.numeric_edits(spec) + H.link_edits(spec); eds[idx].live(b); out["slot"] += "|after " + eds[idx].name
+                eds = H.numeric_edits(spec) + H.link_edits(spec)
+                for k_ in (idx if isinstance(idx, tuple) else (idx,)):
+                    eds[k_].live(b); out["slot"] += "|after " + eds[k_].name
         except Exception as ex:
             out["status"] = "D3" if H.is_float_cancellation_rejection(ex) else "raises"; return out
         before = H.snapshot(b.system, inputs=True)
         objs = [getattr(o, "_value", o) for o in H.all_objects(b.system)]
-        rnd = random.Random(hash(tname) % 1000 + (idx or 0))
+        rnd = random.Random(f"{tname}|{idx}")
         if mode == "full-pass":
             for o in b.system.mod_objs_computation_chain[1:]: o.compute_calculated_attributes()
             b.system.compute_calculated_attributes()
@@ -265,8 +278,14 @@ def run_c18(tier, seed, procs=16):
             idxs = range(n) if tier == "thorough" else [i for i in range(n) if (i + seed) % 6 == 0]
             if mode in ("full-pass", "each-object-alone"):
                 for i in idxs: items.append((tname, spec, i, mode))
+        # histories of two edits (e.g. two different inputs of one attribute edited in turn), then a full second pass
+        nn = len(H.numeric_edits(spec))
+        rnd = random.Random(f"{seed}|{tname}|pairs")
+        allp = [(i, j) for i in range(nn) for j in range(nn) if i != j]
+        for p_ in (allp if tier == "thorough" and tname in ("single", "two_independent_chains") else rnd.sample(allp, min(len(allp), 40 if tier == "quick" else 150))):
+            items.append((tname, spec, p_, "full-pass"))
     res = H.run_parallel(_c18_case, items, procs)
-    return _report("C18", res, lambda r: f"{r['topology']}|{r['slot']}", "one case = (topology, optionally after one edit, a recomputation request: full second pass / each object alone / random subset of objects / read-explain-export); every calculated attribute AND every input compared before/after on physical values",
+    return _report("C18", res, lambda r: f"{r['topology']}|{r['slot']}", "one case = (topology, optionally after one edit or a history of two numeric edits, a recomputation request: full second pass / each object alone / random subset of objects / read-explain-export); every calculated attribute AND every input compared before/after on physical values",
                    f"{len(T)} topologies x 4 request kinds (+ after {'every' if tier == 'thorough' else 'a sixth of the'} single edits)")
 
 
